@@ -486,6 +486,52 @@ impl DataValue {
     }
 }
 
+/// strings long enough for the generators' long-bracket form (>= 60 bytes, or >= 20 bytes with >= 6 line
+/// feeds), with the bytes that form must not contain or must treat specially: carriage returns (CRLF and lone),
+/// a leading line feed, closing brackets of several levels, tabs
+pub const LONG_STRINGS: [&str; 10] = [
+    "first line\r\nsecond line\r\nthird line of the note\r\nfourth and last line of it\r\n",
+    "a lone carriage return\rin the middle of a value that is long enough for the long form\rend",
+    "a\r\nb\r\nc\r\nd\r\ne\r\nf\r\ngg\r\n",
+    "l1\nl2\nl3\nl4\nl5\nl6\rl7 and a lone CR",
+    "only line feeds\nin a value that is long enough\nfor the long bracket form\nof the generators\n",
+    "\nstarts with a line feed and goes on for more than sixty bytes so that the long form is chosen",
+    "contains ]] a closing long bracket and is longer than sixty bytes, then ]=] another one ]==] and more",
+    "ends with a bracket and is longer than sixty bytes so that the long form may be chosen ]",
+    "tabs\tare\twhitespace\ttoo and this value is longer than sixty bytes\twith\nline feeds\n\n\n\n\n",
+    "\r\nstarts with CRLF and is long enough for the long form of the string writers, more than sixty",
+];
+
+/// Enumerated: the long strings above as the content of a txt file and as a leaf of every data format
+pub fn long_strings() -> Vec<Case> {
+    let mut cases = Vec::new();
+    for (k, text) in LONG_STRINGS.iter().enumerate() {
+        for path in ["src/data/s.txt", "src/data/s.json", "src/data/s.json5", "src/data/s.yaml", "src/data/s.yml", "src/data/s.toml"] {
+            let value = if path.ends_with(".txt") {
+                DataValue::Str((*text).to_owned())
+            } else {
+                DataValue::Map(vec![("list".to_owned(), DataValue::Arr(vec![DataValue::Str((*text).to_owned()), DataValue::Int(k as i64)])), ("text".to_owned(), DataValue::Str((*text).to_owned()))])
+            };
+            let value = if path.ends_with(".toml") { match value { DataValue::Map(mut e) => { e.remove(0); DataValue::Map(e) } v => v } } else { value };
+            let mode = if k % 2 == 0 { Mode::Path } else { Mode::Luau };
+            let literal = format!("./data/{}", filename(path));
+            let entry = FileSpec {
+                path: "src/main.lua".to_owned(),
+                kind: FileKind::Lua {
+                    prefix: String::new(),
+                    items: vec![Item::Site { literal, form: Form::LocalParen, shadow_block: false }],
+                    ret: Ret::One,
+                    kind: Kind::Num,
+                    syntax_error: false,
+                },
+            };
+            let data = FileSpec { path: path.to_owned(), kind: FileKind::Data { value, malformed: false } };
+            cases.push(Case { mode, files: vec![entry, data], excludes: Vec::new(), modules_identifier: None, aliases: Vec::new() });
+        }
+    }
+    cases
+}
+
 /// boundary values of the numeric conversions (`rich`: also what only JSON / JSON5 / YAML can spell)
 fn gen_boundary(rng: &mut Rng, rich: bool) -> DataValue {
     let ints: [i64; 8] = [i64::MAX, i64::MIN, i64::MAX - 1, 1 << 53, (1 << 53) + 1, -(1 << 53) - 1, u32::MAX as i64 + 1, i32::MIN as i64];
@@ -508,7 +554,7 @@ fn gen_scalar(rng: &mut Rng, allow_null: bool, rich: bool) -> DataValue {
         2 => DataValue::Float(*rng.pick(&[0.5, -2.25, 1000.0, 123456789.125, 1e21, 0.1])),
         3 => DataValue::Str((*rng.pick(&["", "plain", "two words", "quote\"d", "back\\slash", "line\nbreak", "tab\there", "end", "h\u{e9}llo \u{4e16}"])).to_owned()),
         4 => DataValue::Int(rng.range(0, 9)),
-        5 => DataValue::Str(format!("s{}", rng.below(100))),
+        5 => if rng.chance(1, 4) { DataValue::Str((*rng.pick(&LONG_STRINGS)).to_owned()) } else { DataValue::Str(format!("s{}", rng.below(100))) },
         _ => DataValue::Null,
     }
 }
@@ -572,6 +618,18 @@ pub struct Rendered {
     pub reference: Option<String>,
     /// per data file: `return <lua constructor>` as the harness's own writer renders the value
     pub data_lua: BTreeMap<String, String>,
+    /// set when this graph is bundled together with other entries in ONE darklua run over a tree with
+    /// `.luaurc` files (`aliases` is then what the closest `.luaurc` above the entry defines)
+    pub batch: Option<Batch>,
+}
+
+/// several entries bundled in one darklua run
+#[derive(Clone, Debug, Default)]
+pub struct Batch {
+    /// every entry of the run, in processing order (the entry of the graph is one of them)
+    pub entries: Vec<String>,
+    /// the other files of the tree: `.luaurc` files and the graphs of the other entries
+    pub extra_files: Vec<(String, String)>,
 }
 
 fn kind_of(case: &Case, path: &str) -> Kind {
@@ -904,7 +962,7 @@ pub fn gen_case(rng: &mut Rng, opts: &GenOptions, prefix_gen: &mut dyn FnMut(&mu
         if i >= n_code {
             let allow_null = extension(&path) != Some("toml");
             let value = match extension(&path) {
-                Some("txt") => DataValue::Str((*rng.pick(&["hello\nworld\n", "", "one line", "quote \" and \\ backslash"])).to_owned()),
+                Some("txt") => DataValue::Str((*rng.pick(&["hello\nworld\n", "", "one line", "quote \" and \\ backslash", LONG_STRINGS[0], LONG_STRINGS[1], LONG_STRINGS[2], LONG_STRINGS[3]])).to_owned()),
                 Some("toml") => gen_map(rng, 2, false, false),
                 _ => if rng.chance(3, 4) { gen_map(rng, 2, allow_null, true) } else { gen_data(rng, 2, allow_null, true) },
             };
@@ -1255,4 +1313,103 @@ pub fn small_graph(n: usize, mask: u32, mode: Mode) -> Case {
         });
     }
     Case { mode, files, excludes: Vec::new(), modules_identifier: None, aliases: Vec::new() }
+}
+
+// ------------------------------------------------------------------ `.luaurc` trees, several entries per run
+
+fn lib_file(path: &str) -> FileSpec {
+    FileSpec { path: path.to_owned(), kind: FileKind::Lua { prefix: String::new(), items: Vec::new(), ret: Ret::One, kind: Kind::Tbl, syntax_error: false } }
+}
+
+/// A tree with a `.luaurc` under `src/` and a DIFFERENT one in a module folder below it (the same alias defined
+/// differently, plus an alias only one of them knows), Lua files in both directories, in a directory between them
+/// and below the inner one; every such file is an entry of ONE darklua run (`use_luau_configuration` at its
+/// default, no inline alias). The aliases of an entry are those of the closest `.luaurc` above it (a standard Luau
+/// require; darklua documents the same). One `Rendered` per entry and per processing order (ancestors first,
+/// descendants first, shuffled).
+pub fn luaurc_batches(rng: &mut Rng) -> Vec<Rendered> {
+    let alias = *rng.pick(&["pkg", "lib", "dep"]);
+    let inner_dir = (*rng.pick(&["src/one/inner", "src/one", "src/mods/deep/er"])).to_owned();
+    let (outer_loc, inner_loc) = *rng.pick(&[("./libA", "./vendor"), ("../shared", "./libA"), ("./libA", "../sibling")]);
+    let outer_target = normalize(&format!("src/{}", outer_loc));
+    let inner_target = normalize(&format!("{}/{}", inner_dir, inner_loc));
+    let outer_only = normalize("src/outer_only");
+    let inner_only = normalize(&format!("{}/inner_only", inner_dir));
+    let luaurc = |entries: &[(&str, &str)]| -> String {
+        let list: Vec<String> = entries.iter().map(|(k, v)| format!("{}: {}", json_string(k), json_string(v))).collect();
+        format!("{{ \"aliases\": {{ {} }} }}", list.join(", "))
+    };
+    let rc_files = vec![
+        ("src/.luaurc".to_owned(), luaurc(&[(alias, outer_loc), ("outeronly", "./outer_only")])),
+        (format!("{}/.luaurc", inner_dir), luaurc(&[(alias, inner_loc), ("inneronly", "./inner_only")])),
+    ];
+    // (entry path, governed by the inner .luaurc?)
+    let mut entries: Vec<(String, bool)> = vec![("src/main.lua".to_owned(), false), (format!("{}/main.lua", inner_dir), true)];
+    if rng.chance(2, 3) {
+        entries.push((format!("{}/sub/below.lua", inner_dir), true));
+    }
+    let between = dirname(&inner_dir).to_owned();
+    if between != "src" && rng.chance(2, 3) {
+        entries.push((format!("{}/between.lua", between), false));
+    }
+    if rng.chance(1, 2) {
+        entries.push(("src/side/other.lua".to_owned(), false));
+    }
+    let forms = [Form::LocalParen, Form::LocalString, Form::Arg, Form::Lazy(2), Form::FieldPrefix, Form::Method];
+    let mut cases: Vec<Case> = Vec::new();
+    for (path, inner) in &entries {
+        let (rc_dir, target, only_name, only_dir) =
+            if *inner { (inner_dir.clone(), inner_target.clone(), "@inneronly", inner_only.clone()) } else { ("src".to_owned(), outer_target.clone(), "@outeronly", outer_only.clone()) };
+        let from = dirname(path).to_owned();
+        let loc = |dir: &str| -> String {
+            let r = relative(&from, &format!("{}/x", dir));
+            r.strip_suffix("/x").unwrap_or(&r).to_owned()
+        };
+        let _ = rc_dir;
+        let aliases = vec![(format!("@{}", alias), loc(&target)), (only_name.to_owned(), loc(&only_dir))];
+        let mut items = vec![Item::Site { literal: format!("@{}/greet", alias), form: *rng.pick(&forms), shadow_block: false }];
+        let mut files = vec![lib_file(&format!("{}/greet.lua", target))];
+        if rng.chance(1, 2) {
+            items.push(Item::Site { literal: format!("{}/thing", only_name), form: *rng.pick(&forms), shadow_block: false });
+            files.push(lib_file(&format!("{}/thing.luau", only_dir)));
+        }
+        if rng.chance(1, 2) {
+            items.push(Item::Site { literal: format!("@{}/greet.lua", alias), form: Form::LocalParen, shadow_block: false });
+        }
+        let entry = FileSpec { path: path.clone(), kind: FileKind::Lua { prefix: String::new(), items, ret: Ret::One, kind: Kind::Num, syntax_error: false } };
+        let mut all = vec![entry];
+        all.extend(files);
+        cases.push(Case { mode: Mode::Luau, files: all, excludes: Vec::new(), modules_identifier: None, aliases });
+    }
+    let rendered: Vec<Rendered> = cases.iter().map(render).collect();
+    // processing orders: ancestors first (shorter directory first), descendants first, shuffled
+    let mut by_depth: Vec<String> = entries.iter().map(|(p, _)| p.clone()).collect();
+    by_depth.sort_by_key(|p| (p.matches('/').count(), p.clone()));
+    let mut reversed = by_depth.clone();
+    reversed.reverse();
+    let mut shuffled = by_depth.clone();
+    for i in (1..shuffled.len()).rev() {
+        let j = rng.below(i + 1);
+        shuffled.swap(i, j);
+    }
+    let mut out = Vec::new();
+    for order in [by_depth, reversed, shuffled] {
+        for (i, r) in rendered.iter().enumerate() {
+            let mut extra: BTreeMap<String, String> = BTreeMap::new();
+            for (p, c) in &rc_files {
+                extra.insert(p.clone(), c.clone());
+            }
+            for (j, other) in rendered.iter().enumerate() {
+                if j == i { continue; }
+                for (p, c) in &other.files {
+                    if r.files.iter().any(|(q, _)| q == p) { continue; }
+                    extra.insert(p.clone(), c.clone());
+                }
+            }
+            let mut r = r.clone();
+            r.batch = Some(Batch { entries: order.clone(), extra_files: extra.into_iter().collect() });
+            out.push(r);
+        }
+    }
+    out
 }
